@@ -360,7 +360,13 @@ func scanIndexFile(ctx context.Context, basePath string, fileNum uint32, buckets
 	var pos int64
 	var i int
 	for {
-		if _, err = file.ReadAt(sizeBuffer, pos); err != nil {
+		var n int
+		if n, err = file.ReadAt(sizeBuffer, pos); err != nil {
+			if err == io.EOF && n != 0 {
+				// File.ReadAt reports a short read as io.EOF. A partial
+				// size prefix is incomplete data, not the end of the index.
+				err = io.ErrUnexpectedEOF
+			}
 			if err == io.EOF {
 				// Finished reading entire index.
 				break
